@@ -97,15 +97,21 @@ def run_once(nameserver, errors, chooser, scen, tfilter, dbdir=None):
         log.append({"e": "init", "list": c14.listing(ns)})
         done = [0]
 
-        def worker(th, o):
+        def worker(th, ops):
             def body():
-                log.append({"e": "call", "th": th, "o": o})
-                r = c14.apply_op(ns, o, errors)
-                log.append({"e": "ret", "th": th, "r": r})
-                done[0] += 1
+                for o in ops:       # one client doing these one after the other
+                    log.append({"e": "call", "th": th, "o": o})
+                    r = c14.apply_op(ns, o, errors)
+                    log.append({"e": "ret", "th": th, "r": r})
+                    done[0] += 1
             return body
-        for i, o in enumerate(scen["ops"]):
-            sc.spawn("t%d" % (i + 1), worker(i + 1, c14.norm_op(o)))
+        if scen.get("chain"):
+            # the first operation in one thread, the other two one after the other in a second thread
+            groups = [[scen["ops"][0]], list(scen["ops"][1:])]
+        else:
+            groups = [[o] for o in scen["ops"]]
+        for i, ops in enumerate(groups):
+            sc.spawn("t%d" % (i + 1), worker(i + 1, [c14.norm_op(o) for o in ops]))
         sc.yield_point(lambda: done[0] == len(scen["ops"]))
         # afterwards, sequentially: every shared name is looked up again (a completed history must explain these reads too)
         for nm in ([1], [1, 1]):
@@ -144,6 +150,19 @@ def run(ctx):
         raise util.MachineryError("scenario generation incomplete")
     rng = random.Random(ctx.seed + 15)
     rng.shuffle(scen3)
+    # a reader overtaken by two writes that one other client makes one after the other (so their order is fixed): one preemption
+    # is enough - the reader starts, the writer runs to completion, the reader resumes -, so every switch point is tried
+    readers = {"lookup", "list", "yplookup", "count"}
+    sandwiched = [s for s in scen3 if s["ops"][0]["op"] in readers and s["ops"][1]["op"] not in readers and s["ops"][2]["op"] not in readers
+                  and (s["ops"][0].get("sel") in ("regex", "prefix", "all") or s["ops"][0]["op"] != "list")]
+    # one writer adds an entry, the other takes one away: in between no state has neither or both by accident
+    def weight(s):
+        w1, w2, rd = s["ops"][1], s["ops"][2], s["ops"][0]
+        moves = w1["op"] == "register" and w2["op"] == "remove" and not w1.get("safe") and w1.get("name") != w2.get("arg") and \
+            (w2.get("arg") in s["init"] or w2.get("sel") != "name")
+        return (not moves, not s["init"], {"regex": 0, "all": 1, "prefix": 2}.get(rd.get("sel"), 3), rd["op"] != "list")
+    sandwiched.sort(key=weight)
+    sandwiched = [dict(s, chain=True) for s in sandwiched[:ctx.pick(90, 900)]]
     scen3 = scen3[:ctx.pick(80, 3000)]
     nsfile = os.path.abspath(nameserver.__file__)
 
@@ -152,7 +171,8 @@ def run(ctx):
     traces = {}
     runs = 0
     for scen, (bound, limit, nrand) in [(s, (ctx.pick(2, 3), ctx.pick(10, 60), ctx.pick(3, 20))) for s in scen2] + \
-                                       [(s, (ctx.pick(1, 2), ctx.pick(8, 40), ctx.pick(4, 20))) for s in scen3]:
+                                       [(s, (ctx.pick(1, 2), ctx.pick(8, 40), ctx.pick(4, 20))) for s in scen3] + \
+                                       [(s, (1, ctx.pick(60, 150), 1)) for s in sandwiched]:
         def once(ch):
             return run_once(nameserver, errors, ch, scen, tfilter)
         for ch, tr in S.explore(once, max_preemptions=bound, limit=limit, rng=rng, random_runs=nrand):
